@@ -106,48 +106,66 @@ end All2
 in the list `T` (variable cells, temporaries, the caller's frame) do not exceed its strong count -/
 def Inv (h : Heap) (T : List Val) : Prop := ∀ id, pocc id h + occ id T ≤ rcOf h id
 
-/-- `RepN k h v t`: value `v` in heap `h` represents the tree `t`, by a derivation of depth ≤ k -/
+/-- `RepN k h v t`: value `v` in heap `h` represents the tree `t`, by a derivation of depth ≤ k.
+A handle represents a container (list or dict): same kind and keys, element-wise represented values. -/
 def RepN : Nat → Heap → Val → Tree → Prop
-  | _, _, .null, .null => True
-  | _, _, .int n, .int m => n = m
-  | k + 1, h, .ref id, .list ts => id < h.allocs.length ∧ All2 (RepN k h) (payloadOf h id) ts
-  | _, _, _, _ => False
+  | _, _, .null, t => t = .null
+  | _, _, .int n, t => t = .int n
+  | 0, _, .ref _, _ => False
+  | k + 1, h, .ref id, t =>
+    t.isCont = true ∧ id < h.allocs.length ∧ keysOf h id = t.keysT ∧ t.dictWF ∧
+      All2 (RepN k h) (payloadOf h id) t.kids
 
 def Rep (h : Heap) (v : Val) (t : Tree) : Prop := ∃ k, RepN k h v t
 
-@[simp] theorem RepN_null_null (k : Nat) (h : Heap) : RepN k h .null .null = True := by
+@[simp] theorem RepN_null (k : Nat) (h : Heap) (t : Tree) : RepN k h .null t = (t = .null) := by
   cases k <;> rfl
-@[simp] theorem RepN_int_int (k : Nat) (h : Heap) (n m : Int) : RepN k h (.int n) (.int m) = (n = m) := by
+@[simp] theorem RepN_int (k : Nat) (h : Heap) (n : Int) (t : Tree) : RepN k h (.int n) t = (t = .int n) := by
   cases k <;> rfl
-@[simp] theorem RepN_ref_list (k : Nat) (h : Heap) (id : Nat) (ts : List Tree) :
-    RepN (k + 1) h (.ref id) (.list ts) = (id < h.allocs.length ∧ All2 (RepN k h) (payloadOf h id) ts) := rfl
-@[simp] theorem RepN_zero_ref (h : Heap) (id : Nat) (t : Tree) : RepN 0 h (.ref id) t = False := by
-  cases t <;> rfl
-@[simp] theorem RepN_null_int (k h n) : RepN k h .null (.int n) = False := by cases k <;> rfl
-@[simp] theorem RepN_null_list (k h ts) : RepN k h .null (.list ts) = False := by cases k <;> rfl
-@[simp] theorem RepN_int_null (k h n) : RepN k h (.int n) .null = False := by cases k <;> rfl
-@[simp] theorem RepN_int_list (k h n ts) : RepN k h (.int n) (.list ts) = False := by cases k <;> rfl
-@[simp] theorem RepN_ref_null (k h id) : RepN k h (.ref id) .null = False := by cases k <;> rfl
-@[simp] theorem RepN_ref_int (k h id n) : RepN k h (.ref id) (.int n) = False := by cases k <;> rfl
+@[simp] theorem RepN_ref_succ (k : Nat) (h : Heap) (id : Nat) (t : Tree) :
+    RepN (k + 1) h (.ref id) t =
+      (t.isCont = true ∧ id < h.allocs.length ∧ keysOf h id = t.keysT ∧ t.dictWF ∧
+        All2 (RepN k h) (payloadOf h id) t.kids) := rfl
+@[simp] theorem RepN_zero_ref (h : Heap) (id : Nat) (t : Tree) : RepN 0 h (.ref id) t = False := rfl
+theorem RepN_null_null (k : Nat) (h : Heap) : RepN k h .null .null = True := by simp
+theorem RepN_int_int (k : Nat) (h : Heap) (n m : Int) : RepN k h (.int n) (.int m) = (n = m) := by
+  simp; exact ⟨fun e => e.symm, fun e => e.symm⟩
+theorem RepN_ref_list (k : Nat) (h : Heap) (id : Nat) (ts : List Tree) :
+    RepN (k + 1) h (.ref id) (.list ts) =
+      (id < h.allocs.length ∧ keysOf h id = none ∧ All2 (RepN k h) (payloadOf h id) ts) := by
+  simp [Tree.dictWF_list]
+theorem RepN_ref_dict (k : Nat) (h : Heap) (id : Nat) (ks : List Int) (vs : List Tree) :
+    RepN (k + 1) h (.ref id) (.dict ks vs) =
+      (id < h.allocs.length ∧ keysOf h id = some ks ∧ ks.length = vs.length ∧
+        All2 (RepN k h) (payloadOf h id) vs) := by
+  simp only [RepN_ref_succ, Tree.isCont_dict, Tree.keysT_dict, Tree.kids_dict, true_and]
+  apply propext
+  constructor
+  · intro ⟨a, b, c, d⟩; exact ⟨a, b, by simpa [Tree.kids] using c ks rfl, d⟩
+  · intro ⟨a, b, c, d⟩; exact ⟨a, b, Tree.dictWF_dict c, d⟩
 
-/-- a represented handle has a list tree -/
+/-- a represented handle has a container tree of the same kind and keys -/
 theorem RepN_ref_inv {k : Nat} {h : Heap} {id : Nat} {t : Tree} (r : RepN k h (.ref id) t) :
-    ∃ k' ts, k = k' + 1 ∧ t = .list ts ∧ id < h.allocs.length ∧ All2 (RepN k' h) (payloadOf h id) ts := by
+    ∃ k', k = k' + 1 ∧ t.isCont = true ∧ id < h.allocs.length ∧ keysOf h id = t.keysT ∧ t.dictWF ∧
+      All2 (RepN k' h) (payloadOf h id) t.kids := by
   cases k with
   | zero => simp at r
-  | succ k => cases t <;> simp at r; exact ⟨k, _, rfl, rfl, r.1, r.2⟩
+  | succ k => exact ⟨k, rfl, r⟩
 
 theorem RepN_succ : ∀ {k : Nat} {h : Heap} {v : Val} {t : Tree}, RepN k h v t → RepN (k + 1) h v t := by
   intro k
   induction k with
   | zero =>
     intro h v t r
-    cases v <;> cases t <;> simp at r ⊢ <;> exact r
+    cases v <;> simp at r ⊢ <;> exact r
   | succ k ih =>
     intro h v t r
-    cases v <;> cases t <;> simp at r ⊢
-    · exact r
-    · exact ⟨r.1, All2.mono (fun a b _ hab => ih hab) r.2⟩
+    cases v with
+    | null => simpa using r
+    | int n => simpa using r
+    | ref id =>
+      simp only [RepN_ref_succ] at r ⊢
+      exact ⟨r.1, r.2.1, r.2.2.1, r.2.2.2.1, All2.mono (fun a b _ hab => ih hab) r.2.2.2.2⟩
 
 theorem RepN_le {k k' : Nat} {h : Heap} {v : Val} {t : Tree} (hk : k ≤ k') (r : RepN k h v t) : RepN k' h v t := by
   induction hk with
@@ -166,10 +184,20 @@ theorem All2_Rep_common {h : Heap} : ∀ {vs : List Val} {ts : List Tree}, All2 
   | [], _ :: _, hh => by simp at hh
   | _ :: _, [], hh => by simp at hh
 
-theorem Rep_ref_list {h : Heap} {id : Nat} {ts : List Tree} (hl : id < h.allocs.length)
-    (hh : All2 (Rep h) (payloadOf h id) ts) : Rep h (.ref id) (.list ts) := by
+theorem Rep_ref_cont {h : Heap} {id : Nat} {t : Tree} (hc : t.isCont = true) (hl : id < h.allocs.length)
+    (hk : keysOf h id = t.keysT) (hw : t.dictWF) (hh : All2 (Rep h) (payloadOf h id) t.kids) :
+    Rep h (.ref id) t := by
   obtain ⟨k, r⟩ := All2_Rep_common hh
-  exact ⟨k + 1, by simp [hl, r]⟩
+  exact ⟨k + 1, ⟨hc, hl, hk, hw, r⟩⟩
+
+theorem Rep_ref_list {h : Heap} {id : Nat} {ts : List Tree} (hl : id < h.allocs.length)
+    (hk : keysOf h id = none) (hh : All2 (Rep h) (payloadOf h id) ts) : Rep h (.ref id) (.list ts) :=
+  Rep_ref_cont (t := .list ts) rfl hl hk (Tree.dictWF_list ts) hh
+
+theorem Rep_ref_dict {h : Heap} {id : Nat} {ks : List Int} {vs : List Tree} (hl : id < h.allocs.length)
+    (hk : keysOf h id = some ks) (hlen : ks.length = vs.length) (hh : All2 (Rep h) (payloadOf h id) vs) :
+    Rep h (.ref id) (.dict ks vs) :=
+  Rep_ref_cont (t := .dict ks vs) rfl hl hk (Tree.dictWF_dict hlen) hh
 
 /-! ### preservation of representation -/
 
@@ -177,24 +205,28 @@ theorem Rep_ref_list {h : Heap} {id : Nat} {ts : List Tree} (hl : id < h.allocs.
 structure PayloadExt (h h' : Heap) : Prop where
   len : h.allocs.length ≤ h'.allocs.length
   pay : ∀ id, id < h.allocs.length → payloadOf h' id = payloadOf h id
+  keys : ∀ id, id < h.allocs.length → keysOf h' id = keysOf h id
 
-theorem PayloadExt.refl (h : Heap) : PayloadExt h h := ⟨Nat.le_refl _, fun _ _ => rfl⟩
+theorem PayloadExt.refl (h : Heap) : PayloadExt h h := ⟨Nat.le_refl _, fun _ _ => rfl, fun _ _ => rfl⟩
 theorem PayloadExt.trans {h1 h2 h3 : Heap} (a : PayloadExt h1 h2) (b : PayloadExt h2 h3) : PayloadExt h1 h3 :=
-  ⟨Nat.le_trans a.len b.len, fun id hl => by rw [b.pay id (Nat.lt_of_lt_of_le hl a.len), a.pay id hl]⟩
+  ⟨Nat.le_trans a.len b.len, fun id hl => by rw [b.pay id (Nat.lt_of_lt_of_le hl a.len), a.pay id hl],
+   fun id hl => by rw [b.keys id (Nat.lt_of_lt_of_le hl a.len), a.keys id hl]⟩
 
 theorem RepN_ext {h h' : Heap} (e : PayloadExt h h') : ∀ {k : Nat} {v : Val} {t : Tree},
     RepN k h v t → RepN k h' v t := by
   intro k
   induction k with
-  | zero => intro v t r; cases v <;> cases t <;> simp at r ⊢ <;> exact r
+  | zero => intro v t r; cases v <;> simp at r ⊢ <;> exact r
   | succ k ih =>
     intro v t r
-    cases v <;> cases t <;> simp at r ⊢
-    · exact r
-    · rename_i id ts
-      refine ⟨Nat.lt_of_lt_of_le r.1 e.len, ?_⟩
-      rw [e.pay id r.1]
-      exact All2.mono (fun a b _ hab => ih hab) r.2
+    cases v with
+    | null => simpa using r
+    | int n => simpa using r
+    | ref id =>
+      simp only [RepN_ref_succ] at r ⊢
+      refine ⟨r.1, Nat.lt_of_lt_of_le r.2.1 e.len, by rw [e.keys id r.2.1]; exact r.2.2.1, r.2.2.2.1, ?_⟩
+      rw [e.pay id r.2.1]
+      exact All2.mono (fun a b _ hab => ih hab) r.2.2.2.2
 
 /-- frame rule for one allocation: if no payload holds a handle to `id`, rewriting allocation `id`
 cannot be seen from any value other than the handle itself -/
@@ -202,17 +234,20 @@ theorem RepN_frame {h : Heap} {id : Nat} (a : Alloc) (hz : pocc id h = 0) : ∀ 
     RepN k h v t → v ≠ .ref id → RepN k (setAlloc h id a) v t := by
   intro k
   induction k with
-  | zero => intro v t r _; cases v <;> cases t <;> simp at r ⊢ <;> exact r
+  | zero => intro v t r _; cases v <;> simp at r ⊢ <;> exact r
   | succ k ih =>
     intro v t r hne
-    cases v <;> cases t <;> simp at r ⊢
-    · exact r
-    · rename_i j ts
+    cases v with
+    | null => simpa using r
+    | int n => simpa using r
+    | ref j =>
       have hj : ¬ (j = id) := fun e => hne (by rw [e])
-      refine ⟨r.1, ?_⟩
-      rw [payloadOf_setAlloc]
-      simp only [hj, false_and, if_false]
-      exact All2.mono (fun c b hc hab => ih hab (ne_ref_of_pocc_zero hz hc)) r.2
+      simp only [RepN_ref_succ] at r ⊢
+      refine ⟨r.1, by simpa using r.2.1, ?_, r.2.2.2.1, ?_⟩
+      · rw [keysOf_setAlloc]; simp only [hj, false_and, if_false]; exact r.2.2.1
+      · rw [payloadOf_setAlloc]
+        simp only [hj, false_and, if_false]
+        exact All2.mono (fun c b hc hab => ih hab (ne_ref_of_pocc_zero hz hc)) r.2.2.2.2
 
 /-! ### reachability from a frame and stability -/
 
@@ -237,8 +272,9 @@ theorem Reach.mono {h : Heap} {F F' : List Val} (hsub : ∀ v, v ∈ F → v ∈
 structure Stable (h h' : Heap) (F : List Val) : Prop where
   len : h.allocs.length ≤ h'.allocs.length
   pay : ∀ id, id < h.allocs.length → Reach h F (.ref id) → payloadOf h' id = payloadOf h id
+  keys : ∀ id, id < h.allocs.length → Reach h F (.ref id) → keysOf h' id = keysOf h id
 
-theorem Stable.refl (h : Heap) (F : List Val) : Stable h h F := ⟨Nat.le_refl _, fun _ _ _ => rfl⟩
+theorem Stable.refl (h : Heap) (F : List Val) : Stable h h F := ⟨Nat.le_refl _, fun _ _ _ => rfl, fun _ _ _ => rfl⟩
 
 theorem lt_of_mem_payloadOf {h : Heap} {id : Nat} {v : Val} (hm : v ∈ payloadOf h id) : id < h.allocs.length := by
   rcases Nat.lt_or_ge id h.allocs.length with hl | hl
@@ -254,36 +290,43 @@ theorem Stable.reach {h h' : Heap} {F : List Val} (s : Stable h h' F) {v : Val} 
 theorem Stable.trans {h1 h2 h3 : Heap} {F : List Val} (a : Stable h1 h2 F) (b : Stable h2 h3 F) :
     Stable h1 h3 F :=
   ⟨Nat.le_trans a.len b.len, fun id hl r => by
-    rw [b.pay id (Nat.lt_of_lt_of_le hl a.len) (a.reach r), a.pay id hl r]⟩
+    rw [b.pay id (Nat.lt_of_lt_of_le hl a.len) (a.reach r), a.pay id hl r],
+   fun id hl r => by
+    rw [b.keys id (Nat.lt_of_lt_of_le hl a.len) (a.reach r), a.keys id hl r]⟩
 
 theorem Stable.mono {h h' : Heap} {F F' : List Val} (s : Stable h h' F') (hsub : ∀ v, v ∈ F → v ∈ F') :
     Stable h h' F :=
-  ⟨s.len, fun id hl r => s.pay id hl (r.mono hsub)⟩
+  ⟨s.len, fun id hl r => s.pay id hl (r.mono hsub), fun id hl r => s.keys id hl (r.mono hsub)⟩
 
 theorem PayloadExt.stable {h h' : Heap} (e : PayloadExt h h') (F : List Val) : Stable h h' F :=
-  ⟨e.len, fun id hl _ => e.pay id hl⟩
+  ⟨e.len, fun id hl _ => e.pay id hl, fun id hl _ => e.keys id hl⟩
 
 /-- rewriting an allocation that the frame cannot reach is invisible from the frame -/
 theorem Stable.setAlloc {h : Heap} {F : List Val} {id : Nat} (a : Alloc) (hn : ¬ Reach h F (.ref id)) :
     Stable h (setAlloc h id a) F := by
-  refine ⟨by simp, fun i _ r => ?_⟩
-  rw [payloadOf_setAlloc]
-  have : ¬ (i = id) := fun e => hn (e ▸ r)
-  simp [this]
+  refine ⟨by simp, fun i _ r => ?_, fun i _ r => ?_⟩
+  · rw [payloadOf_setAlloc]
+    have : ¬ (i = id) := fun e => hn (e ▸ r)
+    simp [this]
+  · rw [keysOf_setAlloc]
+    have : ¬ (i = id) := fun e => hn (e ▸ r)
+    simp [this]
 
 /-- values reachable from a stable frame keep their representation -/
 theorem Stable.repN {h h' : Heap} {F : List Val} (s : Stable h h' F) : ∀ {k : Nat} {v : Val} {t : Tree},
     Reach h F v → RepN k h v t → RepN k h' v t := by
   intro k
   induction k with
-  | zero => intro v t _ r; cases v <;> cases t <;> simp at r ⊢ <;> exact r
+  | zero => intro v t _ r; cases v <;> simp at r ⊢ <;> exact r
   | succ k ih =>
     intro v t hr r
-    cases v <;> cases t <;> simp at r ⊢
-    · exact r
-    · rename_i id ts
-      refine ⟨Nat.lt_of_lt_of_le r.1 s.len, ?_⟩
-      rw [s.pay id r.1 hr]
-      exact All2.mono (fun c b hc hab => ih (.step hr hc) hab) r.2
+    cases v with
+    | null => simpa using r
+    | int n => simpa using r
+    | ref id =>
+      simp only [RepN_ref_succ] at r ⊢
+      refine ⟨r.1, Nat.lt_of_lt_of_le r.2.1 s.len, by rw [s.keys id r.2.1 hr]; exact r.2.2.1, r.2.2.2.1, ?_⟩
+      rw [s.pay id r.2.1 hr]
+      exact All2.mono (fun c b hc hab => ih (.step hr hc) hab) r.2.2.2.2
 
 end Noulith.RcHeap
